@@ -55,6 +55,7 @@ type c04Base struct {
 	Dir     string // snapshot with warm caches
 	Garbled string // trace printed by the obfuscated program
 	Plain   string // trace printed by the plain build
+	Rev     string // reference reversal of Garbled (file argument, outside the gate)
 }
 
 func (c c04) base(e *Env, cfgName, tier string) (*c04Base, error) {
@@ -86,6 +87,13 @@ func (c c04) base(e *Env, cfgName, tier string) (*c04Base, error) {
 		if err != nil {
 			return nil, err
 		}
+		// The reference reversal: the whole trace as a file argument, outside the gate.
+		tf := filepath.Join(w.Out, "trace.txt")
+		os.WriteFile(tf, []byte(garbled), 0o644)
+		rev, se, code := w.RunPlain(src, cfg, "reverse", ".", tf)
+		if code != 0 {
+			return nil, fmt.Errorf("c04: reference `garble reverse` of the obfuscated trace exited %d: %s", code, shortErr(se))
+		}
 		dir, err := os.MkdirTemp(filepath.Dir(w.Root), "verif-snap-c04-")
 		if err != nil {
 			return nil, err
@@ -100,7 +108,7 @@ func (c c04) base(e *Env, cfgName, tier string) (*c04Base, error) {
 		if garbled == plain.Stdout {
 			return nil, fmt.Errorf("c04: the obfuscated program printed the same trace as the plain one; nothing to reverse")
 		}
-		return &c04Base{Dir: dir, Garbled: garbled, Plain: plain.Stdout}, nil
+		return &c04Base{Dir: dir, Garbled: garbled, Plain: plain.Stdout, Rev: rev}, nil
 	})
 	if err != nil {
 		return nil, err
@@ -287,7 +295,10 @@ func (c c04) Run(e *Env, cs *Case) (*Outcome, error) {
 	if err != nil {
 		return nil, err
 	}
-	in, want, wantExit := c04Derive(p.Input, base.Garbled, base.Plain)
+	// Delivery independence and the metamorphic relations are judged against the
+	// reference reversal; whether that reversal equals the plain build's trace is
+	// a statement about the program's call shapes, reported once, on its own key.
+	in, want, wantExit := c04Derive(p.Input, base.Garbled, base.Rev)
 	r := rand.New(rand.NewSource(p.Seed))
 	var cl *engine.Client
 	nchunks := 1
@@ -336,6 +347,20 @@ func (c c04) Run(e *Env, cs *Case) (*Outcome, error) {
 	}
 	if lo := leftovers(w.Tmp); len(lo) > 0 {
 		return viol("tmpdir-leftover", fmt.Sprintf("reverse left %v in TMPDIR", lo))
+	}
+	if p.Input == "trace" && p.Mode == "file" {
+		// Call-shape oracle for the fixed corpus program: one violation per frame
+		// line that the reversal does not restore to what the plain build prints.
+		for _, d := range diffLines(base.Rev, base.Plain) {
+			_, rest, _ := strings.Cut(d, " | want: ")
+			v := &Violation{Class: "reversed-trace-differs-from-plain", Key: "reversed-trace-differs-from-plain/p6/" + p.Cfg + "/" + strings.TrimSpace(rest),
+				Detail: "corpus p6, reference reversal vs trace of the plain -trimpath build: " + d}
+			if o.Violation == nil {
+				o.Violation = v
+			} else {
+				o.More = append(o.More, v)
+			}
+		}
 	}
 	return o, nil
 }
